@@ -2,8 +2,14 @@
 //! trust-platform code.  Every sub-command either turns scripts (the environment's half of
 //! a behaviour) into recorded ndjson traces of the real code, or generates scripts.
 mod cycle;
+mod debug;
+mod ctrlauth;
 mod fb;
+mod resource;
+mod retain;
 mod hirdb;
+mod parse;
+mod stbc;
 mod util;
 
 fn main() {
@@ -13,10 +19,17 @@ fn main() {
     let code = match cmd {
         "cycle-gen" => cycle::gen(rest),
         "cycle-run" => cycle::run(rest),
+        "debug-run" => debug::run(rest),
         "fb-gen" => fb::gen(rest),
         "fb-run" => fb::run(rest),
+        "ctrlauth-gen" => ctrlauth::gen(rest), "ctrlauth-run" => ctrlauth::run(rest),
+        "resource-run" => resource::run(rest),
+        "retain-child" => retain::child(rest),
+        "retain-run" => retain::run(rest),
         "hirdb-gen" => hirdb::gen(rest),
         "hirdb-run" => hirdb::run(rest),
+        "parse-gen" => parse::gen(rest), "parse-run" => parse::run(rest),
+        "stbc-gen" => stbc::gen(rest), "stbc-run" => stbc::run(rest),
         _ => {
             eprintln!("usage: tpv <sub-command> ...");
             2
